@@ -1,4 +1,5 @@
 import Driver.Proto
+import Gosyn.Model.Climb
 /-! `driver model`: the model's answer for one harness case line, in the harness's output format. -/
 open Gosyn.Model Gosyn.Gen Gosyn.Ast
 
@@ -39,6 +40,30 @@ def okClass {α} (r : Except PErr α) : String :=
   | .error (.panic _) => "{\"panic\":true}"
   | .error e => "{\"err\":" ++ errJson e ++ "}"
 
+/-- the precedence-climbing kernel (`Model/Climb.lean`, the object of the C04 theorems) on a
+    space-separated sequence `a + b * c`; prints the grouping fully parenthesised -/
+partial def shapeOf : Gosyn.Spec.T String → String
+  | .atom a => a
+  | .bin o l r => "(" ++ shapeOf l ++ " " ++ String.ofList o.str ++ " " ++ shapeOf r ++ ")"
+
+def climbCase (s : String) : String :=
+  let ws := (s.splitOn " ").filter (· ≠ "")
+  match ws with
+  | [] => "{\"bad-op\":true}"
+  | a0 :: rest =>
+    let rec pairs : List String → Option (List (Operator × String))
+      | [] => some []
+      | o :: a :: tl => do
+        let op ← opFromChars o.toList
+        let r ← pairs tl
+        pure ((op, a) :: r)
+      | _ => none
+    match pairs rest with
+    | none => "{\"bad-op\":true}"
+    | some ps =>
+      let r := climbAll Operator.prec a0 ps
+      "{\"shape\":" ++ jsonStr (shapeOf r.1).toList ++ ",\"left\":" ++ toString r.2.length ++ "}"
+
 def modelCase (mode : String) (hex : String) : String :=
   let bytes := unhexBytes hex
   if mode = "disk" then
@@ -53,6 +78,7 @@ def modelCase (mode : String) (hex : String) : String :=
   | none => "{\"bad-input\":\"not utf-8\"}"
   | some s =>
     if mode = "scan" then scanAll s
+    else if mode = "climb" then climbCase s
     else if mode = "file" then outcomeOf File.toJson (runFile s).1
     else if mode = "expr" then outcomeOf Expression.toJson (runExpr s).1
     else if mode = "stmt" then outcomeOf Statement.toJson (runStmt s).1
